@@ -114,6 +114,16 @@ impl DetectProp for C05 {
     }
     fn directed(&self, _thorough: bool) -> Vec<Case> {
         let mut v = vec![];
+        // entries that name no encoding, in awkward shapes, alone and among valid names: an error naming the entry
+        for (k, l) in odd_unknown_labels().into_iter().enumerate() {
+            let mut s = Sett::default();
+            if k % 2 == 0 {
+                s.incl = vec!["utf-8".into(), l.clone()];
+            } else {
+                s.excl = vec![l.clone(), "big5".into()];
+            }
+            v.push(Case { bytes: "Привет, мир! Это проверка.".as_bytes().to_vec(), sett: s, tag: "directed:odd-unknown-label".into() });
+        }
         let mk = |bytes: &[u8], incl: &[&str], excl: &[&str]| {
             let mut s = Sett::default();
             s.incl = incl.iter().map(|x| x.to_string()).collect();
